@@ -71,7 +71,13 @@ func (histArea) Gen(r *hx.Rng, n int, _ string, emit func(string)) {
 	for i := 0; i < n; i++ {
 		ops := genHistOps(r)
 		nw, hasF := histWrites(ops)
-		old := hx.Pick(r, []string{"absent", "file:70000:600", "file:5:644", "link:5:644", "dangling"})
+		old := hx.Pick(r, []string{"absent", "file:70000:600", "file:5:644", "link:5:644", "dangling", "dir", "link:70000:600", "noparent"})
+		// half of the lines (all with a directory destination or a missing parent) are judged by the model with node kinds and
+		// the kernel's rules inside (`histk`, Model/SafeFileKinds.lean), the others by Safe.apiRunFull
+		sfx := ""
+		if old == "dir" || old == "noparent" || r.Intn(2) == 0 {
+			sfx = "k"
+		}
 		um := hx.Pick(r, []string{"22", "27", "77", "0"})
 		mode := hx.Pick(r, []string{"644", "600", "666", "755"})
 		var faults []string
@@ -97,6 +103,8 @@ func (histArea) Gen(r *hx.Rng, n int, _ string, emit func(string)) {
 		if r.Intn(12) == 0 {
 			faults = []string{"open:1:" + hx.Pick(r, errs3)}
 			used = map[string]int{"open": 1}
+		} else if old == "noparent" { // no handle, no further system call in the directory: a fault would land on a foreign call
+			faults, used = nil, map[string]int{}
 		}
 		fs := "-"
 		if len(faults) > 0 {
@@ -114,9 +122,9 @@ func (histArea) Gen(r *hx.Rng, n int, _ string, emit func(string)) {
 			if w, ok := used[name]; ok { // one inject expression per name: the kill replaces the fault on the same call
 				j = w
 			}
-			emit("hkill " + line + " " + name + " " + strconv.Itoa(j))
+			emit("hkill" + sfx + " " + line + " " + name + " " + strconv.Itoa(j))
 		} else {
-			emit("hist " + line)
+			emit("hist" + sfx + " " + line)
 		}
 	}
 }
@@ -146,6 +154,8 @@ func histNew(ops string, wfail int) int {
 
 func (histArea) Run(line string) string {
 	f := strings.Fields(line)
+	kmode := strings.HasSuffix(f[0], "k")
+	f[0] = strings.TrimSuffix(f[0], "k")
 	if (f[0] != "hist" && f[0] != "hkill") || (f[0] == "hist" && len(f) != 6) || (f[0] == "hkill" && len(f) != 8) {
 		return "bad-op"
 	}
@@ -186,7 +196,7 @@ func (histArea) Run(line string) string {
 	out := ""
 	for attempt := 0; attempt < 3; attempt++ {
 		var drift bool
-		out, drift = histOnce(f[0] == "hkill", s, injects, want, killKind, killIdx)
+		out, drift = histOnce(f[0] == "hkill", kmode, s, injects, want, killKind, killIdx)
 		if !drift {
 			break
 		}
@@ -195,7 +205,7 @@ func (histArea) Run(line string) string {
 }
 
 // histOnce performs one strace run of a history; drift = an injection landed on another call than the intended one
-func histOnce(kill bool, s scenario, injects []string, want map[string]int, killKind string, killIdx int) (string, bool) {
+func histOnce(kill, kmode bool, s scenario, injects []string, want map[string]int, killKind string, killIdx int) (string, bool) {
 	old := parseOld(s.old)
 	um, mode := octal(s.umask), octal(s.mode)
 	dir, dst := setup(old)
@@ -241,13 +251,30 @@ func histOnce(kill bool, s scenario, injects []string, want map[string]int, kill
 	} else if len(ex) > 1 {
 		t = "MULTI"
 	}
+	tgt := ""
+	if kmode { // the model with node kinds also says what the link's target holds
+		switch old.kind {
+		case "link":
+			tgt = " target=" + readState(dir+".target")
+		case "dangling":
+			tgt = " target=" + readState(dir+".missing")
+		default:
+			tgt = " target=absent"
+		}
+		if old.kind == "dir" { // os.Rename refuses a directory itself (EEXIST); were it to ask the kernel, the errno would depend on the file system
+			for _, e := range []string{"EISDIR", "EEXIST", "ENOTEMPTY"} {
+				sq = strings.ReplaceAll(sq, "rename tmp dst!"+e, "rename tmp dst!DIR")
+				res = strings.ReplaceAll(res, "errno:"+e, "errno:DIR")
+			}
+		}
+	}
 	if !kill {
 		if res == "" {
 			res = "none"
 		}
-		return fmt.Sprintf("seq=%s res=%s dst=%s tmp=%s reader=%s%s%s", sq, res, fileState(dst), t, rs, note, targetCheck(dir, old)), note != ""
+		return fmt.Sprintf("seq=%s res=%s dst=%s tmp=%s reader=%s%s%s%s", sq, res, fileState(dst), t, rs, tgt, note, targetCheck(dir, old)), note != ""
 	}
-	return fmt.Sprintf("seq=%s dst=%s tmp=%s reader=%s%s%s", sq, fileState(dst), t, rs, note, targetCheck(dir, old)), note != ""
+	return fmt.Sprintf("seq=%s dst=%s tmp=%s reader=%s%s%s%s", sq, fileState(dst), t, rs, tgt, note, targetCheck(dir, old)), note != ""
 }
 
 // shardOf: enumerated streams are split over C14_SHARDS generator calls (the seed of a call carries its shard number)
